@@ -45,7 +45,7 @@ func runC16(r *run) {
 			src := g.doc(2)
 			emit(caseT{"lex", []string{hx(src)}})
 			// the same construct with text inserted in front (position shift)
-			pre := g.rg.pick([]string{"x", "ab\n", "\n\n  ", "é\r\nzz", "12345"})
+			pre := g.rg.pick([]string{"x", "ab\n", "\n\n  ", "é\r\nzz", "12345", "\ufeff", "\ufeffab", "\xef\xbb", "\u2028", "\x00", "\t"})
 			emit(caseT{"lexshift", []string{hx(pre), hx(src)}})
 		}
 		nerr := 1500
@@ -253,6 +253,11 @@ var errConstructs = []struct {
 	{"{% nosuchtag %}", true},
 	{"{{ a| }}", true},
 	{"{{ 1 + }}", true},
+	// lexer errors
+	{"{{ \"unclosed }}", true},
+	{"{{ \"bad \\q escape\" }}", true},
+	{"{% if a\n %}x{% endif %}", true},
+	{"{{ a ~ }}", true},
 }
 
 // genErrFile plants one failing construct at a random position of one file of a composition.
